@@ -25,7 +25,7 @@ import _thread
 
 from .vloop import HarnessError, VLoop
 
-_LockType = type(_thread.allocate_lock())
+_LockType = (type(_thread.allocate_lock()), type(_thread.RLock()))
 _PRIMS = (type(None), bool, int, float, str, bytes)
 
 
@@ -137,6 +137,9 @@ class Canon:
             if not new:
                 return ("R", i)
             return ("S", i) + tuple(sorted((self.c(x) for x in o), key=repr))
+        if type(o).__name__ in ("dict_keys", "dict_values", "dict_items"):
+            # a live view; the mapping itself is reachable (and canonicalised) through its owner
+            return ("DV", type(o).__name__) + tuple(self.c(x) for x in o)
         if type(o).__name__ in ("Context", "FutureIter", "ContextVar"):
             return ("CTX",)
         if isinstance(o, BaseException):
@@ -265,6 +268,13 @@ class Canon:
 
 def snapshot(loop: VLoop, roots):
     return Canon(loop).snapshot(roots)
+
+
+def roots_key(loop: VLoop, roots) -> bytes:
+    """state of the given objects only (no ready queue / timers): for before/after comparisons made
+    in the middle of an iteration"""
+    c = Canon(loop)
+    return key_of(tuple(c.c(r) for r in roots))
 
 
 def key_of(snap) -> bytes:
